@@ -1,0 +1,155 @@
+//go:build verif
+
+// Read-only exports for the verification harness in /verif. This file is only
+// compiled with -tags verif; it adds no behaviour and touches no existing code.
+
+package fox
+
+import (
+	"strconv"
+	"strings"
+	"unsafe"
+)
+
+// VerifNode is a structural dump of one radix-tree node, including the stored
+// derived fields and object identities (addresses) used to check sharing.
+type VerifNode struct {
+	Key                string
+	Leaf               bool
+	Pattern            string
+	ChildKeys          string
+	ParamChildIndex    int
+	WildcardChildIndex int
+	Params             []VerifParam
+	Inode              *VerifNode
+	Children           []*VerifNode
+	Addr               uintptr // identity of the node object
+	ChildrenAddr       uintptr // identity of the children backing array (0 if empty)
+	RouteAddr          uintptr
+}
+
+type VerifParam struct {
+	Key      string
+	End      int
+	CatchAll bool
+}
+
+func verifDumpNode(n *node, withInode bool) *VerifNode {
+	if n == nil {
+		return nil
+	}
+	v := &VerifNode{
+		Key:                n.key,
+		Leaf:               n.route != nil,
+		ChildKeys:          string(n.childKeys),
+		ParamChildIndex:    n.paramChildIndex,
+		WildcardChildIndex: n.wildcardChildIndex,
+		Addr:               uintptr(unsafe.Pointer(n)),
+	}
+	if n.route != nil {
+		v.Pattern = n.route.pattern
+		v.RouteAddr = uintptr(unsafe.Pointer(n.route))
+	}
+	if len(n.children) > 0 {
+		v.ChildrenAddr = uintptr(unsafe.Pointer(unsafe.SliceData(n.children)))
+	}
+	for _, p := range n.params {
+		v.Params = append(v.Params, VerifParam{Key: p.key, End: p.end, CatchAll: p.catchAll})
+	}
+	if withInode {
+		v.Inode = verifDumpNode(n.inode, true)
+		if v.Inode != nil {
+			v.Inode.Children = nil
+		}
+	}
+	for _, c := range n.children {
+		v.Children = append(v.Children, verifDumpNode(c, withInode))
+	}
+	return v
+}
+
+// VerifTree is a dump of a whole routing state.
+type VerifTree struct {
+	Roots     []*VerifNode
+	RootsAddr uintptr
+	Size      int
+	MaxParams uint32
+	Depth     uint32
+}
+
+func verifDumpRoots(r roots, size int, maxParams, depth uint32) *VerifTree {
+	t := &VerifTree{Size: size, MaxParams: maxParams, Depth: depth}
+	if len(r) > 0 {
+		t.RootsAddr = uintptr(unsafe.Pointer(unsafe.SliceData(r)))
+	}
+	for _, n := range r {
+		t.Roots = append(t.Roots, verifDumpNode(n, true))
+	}
+	return t
+}
+
+// VerifDump dumps the currently published tree of the router.
+func (fox *Router) VerifDump() *VerifTree {
+	t := fox.getRoot()
+	return verifDumpRoots(t.root, t.size, t.maxParams, t.depth)
+}
+
+// VerifDump dumps the private state of a transaction (nil once settled).
+func (txn *Txn) VerifDump() *VerifTree {
+	if txn.rootTxn == nil {
+		return nil
+	}
+	return verifDumpRoots(txn.rootTxn.root, txn.rootTxn.size, txn.rootTxn.maxParams, txn.rootTxn.depth)
+}
+
+// VerifDump dumps the snapshot an Iter was created from.
+func (it Iter) VerifDump() *VerifTree {
+	return verifDumpRoots(it.root, 0, 0, it.maxDepth)
+}
+
+// VerifSettled reports whether the transaction has been committed or aborted.
+func (txn *Txn) VerifSettled() bool { return txn.rootTxn == nil }
+
+// String renders the dump in a canonical one-node-per-line text form
+// (no addresses) used to compare tree shapes.
+func (t *VerifTree) String() string {
+	var sb strings.Builder
+	sb.WriteString("size=" + strconv.Itoa(t.Size) + " maxParams=" + strconv.Itoa(int(t.MaxParams)) + " depth=" + strconv.Itoa(int(t.Depth)) + "\n")
+	for _, r := range t.Roots {
+		r.write(&sb, 0)
+	}
+	return sb.String()
+}
+
+func (v *VerifNode) write(sb *strings.Builder, ind int) {
+	sb.WriteString(strings.Repeat(" ", ind))
+	sb.WriteString(strconv.Quote(v.Key))
+	if v.Leaf {
+		sb.WriteString(" leaf=" + strconv.Quote(v.Pattern))
+	}
+	sb.WriteString(" ck=" + strconv.Quote(v.ChildKeys) + " pi=" + strconv.Itoa(v.ParamChildIndex) + " wi=" + strconv.Itoa(v.WildcardChildIndex))
+	for _, p := range v.Params {
+		sb.WriteString(" p(" + p.Key + "," + strconv.Itoa(p.End) + "," + strconv.FormatBool(p.CatchAll) + ")")
+	}
+	for in := v.Inode; in != nil; in = in.Inode {
+		sb.WriteString(" inode=" + strconv.Quote(in.Key))
+	}
+	sb.WriteByte('\n')
+	for _, c := range v.Children {
+		c.write(sb, ind+1)
+	}
+}
+
+// VerifParseRoute exposes the pattern validator with the router's limits.
+func (fox *Router) VerifParseRoute(pattern string) (uint32, int, error) {
+	return fox.parseRoute(pattern)
+}
+
+// VerifParseWildcard exposes the per-key wildcard extraction.
+func VerifParseWildcard(segment string) []VerifParam {
+	var out []VerifParam
+	for _, p := range parseWildcard(segment) {
+		out = append(out, VerifParam{Key: p.key, End: p.end, CatchAll: p.catchAll})
+	}
+	return out
+}
